@@ -81,30 +81,52 @@ func ruleSingleOwner(c *Ctx, r *Rule) {
 		caller := cs.Parent()
 		cname := c.fnName(caller)
 		arg := cs.Common().Args[0]
-		// arg = load of &charged[idx]
-		fromCharged := false
-		var idxAddr *ssa.IndexAddr
-		if u, ok := arg.(*ssa.UnOp); ok && u.Op == token.MUL {
-			if ia, ok := u.X.(*ssa.IndexAddr); ok && isLoadOfField(ia.X, pipelinePkg, "streamer", "charged") {
-				fromCharged, idxAddr = true, ia
+		// the attached stream is popped from streamer.charged under chargedMu: in the caller itself, or in a
+		// helper the caller calls for it (`stream := s.popCharged()`)
+		popIn := func(fn *ssa.Function, v ssa.Value, before ssa.Instruction) (fromCharged, popped bool) {
+			u, ok := v.(*ssa.UnOp)
+			if !ok || u.Op != token.MUL {
+				return false, false
+			}
+			ia, ok := u.X.(*ssa.IndexAddr)
+			if !ok || !isLoadOfField(ia.X, pipelinePkg, "streamer", "charged") {
+				return false, false
+			}
+			for _, b := range c.fieldAccesses(pipelinePkg, "streamer", "charged") {
+				if b.write && b.fn == fn {
+					if sl, ok := b.val.(*ssa.Slice); ok && isLoadOfField(sl.X, pipelinePkg, "streamer", "charged") && sameValue(sl.High, ia.Index) && instrDominates(b.in, before) {
+						held, _ := c.heldInterproc(b.in, lockRef{refOf(b.base).root, ".chargedMu"}, 2)
+						heldLoad, _ := c.heldInterproc(ia, lockRef{refOf(b.base).root, ".chargedMu"}, 2)
+						if held && heldLoad {
+							popped = true
+						}
+					}
+				}
+			}
+			return true, popped
+		}
+		fromCharged, popped := popIn(caller, arg, cs)
+		if call, isCall := arg.(*ssa.Call); !fromCharged && isCall && call.Call.StaticCallee() != nil && c.inModule(call.Call.StaticCallee()) {
+			h := call.Call.StaticCallee()
+			fromCharged, popped = true, true
+			rets := returnsOf(h)
+			if len(rets) == 0 {
+				fromCharged = false
+			}
+			for _, ret := range rets {
+				res := retResults(ret)
+				if len(res) != 1 {
+					fromCharged = false
+					continue
+				}
+				fc, pp := popIn(h, res[0], ret)
+				fromCharged = fromCharged && fc
+				popped = popped && pp
 			}
 		}
 		r.Ob(fromCharged, cname+"|popped-stream", cs.Pos(), "the stream being attached was taken out of streamer.charged")
 		if !fromCharged {
 			continue
-		}
-		flow := c.flowMust(caller)
-		popped := false
-		for _, b := range c.fieldAccesses(pipelinePkg, "streamer", "charged") {
-			if b.write && b.fn == caller {
-				if sl, ok := b.val.(*ssa.Slice); ok && isLoadOfField(sl.X, pipelinePkg, "streamer", "charged") && sameValue(sl.High, idxAddr.Index) && instrDominates(b.in, cs) {
-					held := flow.holdsAny(b.in, func(l lockRef) bool { return l.path == ".chargedMu" })
-					heldLoad := flow.holdsAny(idxAddr, func(l lockRef) bool { return l.path == ".chargedMu" })
-					if held && heldLoad {
-						popped = true
-					}
-				}
-			}
 		}
 		r.Ob(popped, cname+"|pop-under-lock", cs.Pos(), "the taken entry is removed from streamer.charged (charged = charged[:idx]) under chargedMu before attach, so no second processor can take the same stream")
 	}
